@@ -19,7 +19,8 @@ def concretise(t, rng, variant):
     proto = [proto, proto.lower(), "".join(c.lower() if i % 2 else c for i, c in enumerate(proto))][variant % 3]
     obj = {"plain": ["obj", "Pyro.NameServer", "x", "obj_1234567890abcdef"], "with_at": ["user@obj", "a@b@c"],
            "punct": ["ob-j_1.2$%&", "o:b", "é-ü", "ob.j/k"], "tags2": ["a,b", "tag1,Tag2"], "tags_dup": ["a,a,b", "b,a,b"],
-           "tags_with_empty": ["a,,b", "a,b,", ",a,b"], "tags_only_empty": [",", ",,", ", ,".replace(" ", "")]}[t["obj"]]
+           "tags_with_empty": ["a,,b", "a,b,", ",a,b"], "tags_only_empty": [",", ",,", ", ,".replace(" ", "")],
+           "lead_at": ["@z,1", "@obj", "@b,a", "@9,@1"]}[t["obj"]]
     obj = obj[variant % len(obj)]
     if t["proto"] != "PYROMETA" and t["obj"].startswith("tags"):
         pass        # for the other protocols a tag list is just an object name with commas
@@ -83,15 +84,15 @@ def facts(core, client, serializers, nameserver, s):
 
 def run(ctx):
     from Pyro5 import core, client, serializers, nameserver
-    ctx.rule = ("cases = every abstract text of URI.tla (protocol x object shape x location shape x port form; 1792 after dropping impossible "
+    ctx.rule = ("cases = every abstract text of URI.tla (protocol x object shape x location shape x port form; 2048 after dropping impossible "
                 "combinations) x seeded concrete witnesses (letter case, host / socket / port spellings); plus all pairs of accepted URIs inside "
                 "each (protocol, object) group; distinct_nontrivial = distinct concrete strings the parser accepted")
     ctx.assumptions = ["concrete witnesses per abstract class are a fixed table plus seeded choices; a defect that needs one particular host or "
                        "object spelling outside the table can be missed"]
     tlc.mc(ctx, "URI", cfg="MC_URI.cfg")
     cases = tlc.gen(ctx, "Gen_URI", cfg="Gen_URI.cfg")
-    if len(cases) != 1792:
-        raise util.MachineryError("expected 1792 abstract texts, got %d" % len(cases))
+    if len(cases) != 2048:
+        raise util.MachineryError("expected 2048 abstract texts, got %d" % len(cases))
     rng = random.Random(ctx.seed + 19)
     traces, seen = [], set()
     groups = {}
